@@ -40,18 +40,24 @@ def main():
     checks = ["C%02d" % i for i in range(1, 21)] if "--all-checks" in sys.argv else AREA_CHECKS[area]
     which = (1, 2, 3)
     rerun = False
+    srcbase, tag = "/tmp/wt3", ""
+    for a in sys.argv[2:]:
+        if a.startswith("--src="):
+            srcbase = a.split("=", 1)[1]
+        if a.startswith("--tag="):
+            tag = a.split("=", 1)[1]
     for a in sys.argv[2:]:
         if a.startswith("--which="):
             which = tuple(int(x) for x in a.split("=", 1)[1].split(","))
         if a.startswith("--checks="):
             checks = a.split("=", 1)[1].split(",")
             rerun = True
-    src = "/tmp/wt3/%s/_refactor" % area
+    src = "%s/%s/_refactor" % (srcbase, area)
     if not os.path.isdir(src):
         src = None
     alarms = 0
     for i in which:
-        dst = os.path.join(VERIF, "seeded", "benign", "%s_%d" % (area, i))
+        dst = os.path.join(VERIF, "seeded", "benign", "%s_%s%d" % (area, tag, i))
         if src:
             diff = os.path.join(src, "refactor_%d.diff" % i)
             if not os.path.exists(diff) or os.path.getsize(diff) == 0:
@@ -63,7 +69,7 @@ def main():
             if os.path.exists(md):
                 shutil.copy(md, os.path.join(dst, "README.md"))
         diff = os.path.join(dst, "refactor.diff")          # the stored copy (the sub-agent's worktree may be gone)
-        base = "/dev/shm/cvref_%s_%d" % (area, i)
+        base = "/dev/shm/cvref_%s_%s%d" % (area, tag, i)
         shutil.rmtree(base, ignore_errors=True)
         os.makedirs(base)
         shutil.copytree(os.path.join(REPO, "src"), os.path.join(base, "src"), ignore=shutil.ignore_patterns("__pycache__", "static"), symlinks=True)
@@ -92,7 +98,7 @@ def main():
                 flag = "ok" if rc.returncode == 0 else "ALARM rc=%d" % rc.returncode
                 if rc.returncode != 0:
                     alarms += 1
-                print("REFACTOR %-16s %s -> %s drift=%d (%ds) %s" % ("%s_%d" % (area, i), c, flag, drift, time.time() - t0,
+                print("REFACTOR %-16s %s -> %s drift=%d (%ds) %s" % ("%s_%s%d" % (area, tag, i), c, flag, drift, time.time() - t0,
                                                                     " | ".join(viol)[:300] + meta["checks"][c]["stderr"][:200]))
                 sys.stdout.flush()
         if old_meta is not None:
